@@ -80,6 +80,11 @@ fn is_counter(name: &str) -> bool {
 
 const NAMES: [&str; 6] = ["a", "b", "c", "d", "x", "y"];
 
+/// names the implementation uses inside its own helper closures and scratch scopes (map, filter,
+/// `~`, type filter, reducers): a user's variable of the same name must not be disturbed
+const INTERNAL_NAMES: [&str; 15] =
+    ["iterator", "default", "func", "mapper", "res", "con", "value", "array", "i", "len", "iter", "acc", "curr", "function", "val"];
+
 fn scalar_types() -> [Ty; 4] {
     [Ty::Int, Ty::Bool, Ty::Str, Ty::Float]
 }
@@ -152,10 +157,31 @@ impl<'a> Gen<'a> {
         // scoping profile: reuse a small pool (forces shadowing); otherwise mostly fresh names
         if self.tape.chance(self.p.scoping.min(7), 8) {
             NAMES[self.tape.below(4)].to_string()
+        } else if self.tape.chance(1, 6) {
+            self.label("variable named like an internal helper name");
+            self.tape.pick(&INTERNAL_NAMES).to_string()
         } else {
             self.fresh += 1;
             format!("v{}", self.fresh)
         }
+    }
+
+    /// the name a construct binds (if-set, match arm, for, while-set): now and then deliberately the
+    /// name of a variable that is visible around the construct (the binder is local to its body)
+    fn binder_name(&mut self) -> String {
+        if self.tape.chance(1, 3) {
+            let outer: Vec<String> = self
+                .visible()
+                .into_iter()
+                .filter(|v| !v.name.starts_with("tk") && v.name != "log" && !is_counter(&v.name) && v.ty != Ty::Never && !self.iterators.contains(&v.name))
+                .map(|v| v.name)
+                .collect();
+            if !outer.is_empty() {
+                self.label("binder spelled like a visible variable");
+                return outer[self.tape.below(outer.len())].clone();
+            }
+        }
+        self.name_for_decl()
     }
 
     fn fresh_name(&mut self, prefix: &str) -> String {
@@ -363,7 +389,14 @@ impl<'a> Gen<'a> {
             Ty::Float => self.float_expr(depth),
             Ty::Bool => self.bool_expr(depth),
             Ty::Str => self.str_expr(depth),
-            Ty::Void => Expr::Void,
+            Ty::Void => {
+                if self.tape.chance(1, 2)
+                    && let Some(call) = self.call_expr(&Ty::Void, depth)
+                {
+                    return call;
+                }
+                Expr::Void
+            }
             Ty::Arr(e) => self.arr_expr(e, depth),
             Ty::Tup(ts) => {
                 if self.tape.chance(1, 4)
@@ -724,6 +757,11 @@ impl<'a> Gen<'a> {
 
     fn arr_source(&mut self, elem: &Ty, depth: usize) -> Expr {
         let t = Ty::arr(elem.clone());
+        if depth >= 2 && self.tape.chance(1, 8) {
+            // any array expression, e.g. a collected pipeline: `(it $])~` iterates over a snapshot
+            self.label("iterator over a computed array");
+            return self.arr_expr(elem, depth - 1);
+        }
         if let Some(v) = self.var_of_type(&t)
             && self.tape.chance(1, 3)
         {
@@ -798,8 +836,22 @@ impl<'a> Gen<'a> {
                 body.push(s);
             }
         }
-        let value = self.expr(ret, depth);
-        body.push(Stmt::Return(Some(Box::new(Stmt::Expr(value)))));
+        if *ret == Ty::Void && self.tape.chance(1, 2) {
+            // a procedure: no return at the end; it yields () whatever its last statement yields
+            self.label("function that runs off its end");
+            let t = self.gen_scalar_ty();
+            let last = self.expr(&t, depth);
+            if self.tape.bool() {
+                body.push(Stmt::Expr(last));
+            } else {
+                let n = self.name_for_decl();
+                self.declare(&n, t);
+                body.push(Stmt::Let(n, Box::new(Stmt::Expr(last))));
+            }
+        } else {
+            let value = self.expr(ret, depth);
+            body.push(Stmt::Return(Some(Box::new(Stmt::Expr(value)))));
+        }
         self.scopes.pop();
         self.fn_ret = saved_ret;
         self.in_loop = saved_loop;
@@ -1066,6 +1118,7 @@ impl<'a> Gen<'a> {
         let name = if self.tape.chance(self.p.scoping.min(6), 8) { ["f", "g"][self.tape.below(2)].to_string() } else { self.fresh_name("fn") };
         let recursive = self.tape.chance(1, 3);
         let r = self.gen_ty(1);
+        let r = if !recursive && self.tape.chance(1, 6) { Ty::Void } else { r };
         if recursive {
             // f(n): if n <= 0 { return base } ...; return combine(f(n - 1))
             self.label("recursive function");
@@ -1210,7 +1263,7 @@ impl<'a> Gen<'a> {
                 } else {
                     self.iter_expr(&elem, depth.saturating_sub(1))
                 };
-                let var = self.name_for_decl();
+                let var = self.binder_name();
                 self.scopes.push(vec![]);
                 self.declare(&var, elem);
                 let mut body = vec![];
@@ -1229,7 +1282,7 @@ impl<'a> Gen<'a> {
             _ => {
                 // while v: int = <int until the counter runs out, then a string> { body }
                 self.label("while-set");
-                let var = self.name_for_decl();
+                let var = self.binder_name();
                 let src = self.fresh_name("w");
                 // w := () -> int|string { k += 1; if *k > bound { return "end"; } return *k; }
                 let fbody = vec![
@@ -1327,7 +1380,7 @@ impl<'a> Gen<'a> {
     }
 
     fn type_arm(&mut self, t: Ty, depth: usize, value: Option<&Ty>) -> Arm {
-        let v = self.name_for_decl();
+        let v = self.binder_name();
         self.scopes.push(vec![]);
         self.declare(&v, t.clone());
         let body = self.block(depth.saturating_sub(1), 1, value);
@@ -1465,7 +1518,7 @@ impl<'a> Gen<'a> {
                 let (ta, tb) = (self.gen_dispatch_ty(), self.gen_dispatch_ty());
                 let u = ta.clone().or(tb.clone());
                 let e = self.expr(&u, depth.saturating_sub(1));
-                let v = self.name_for_decl();
+                let v = self.binder_name();
                 // the tested type: one member, the whole union, or any (always matches)
                 let ta = match self.tape.weighted(&[3, 2, 1]) {
                     0 => ta,
